@@ -81,6 +81,21 @@ theorem C13_search_readonly (F : Nat → LId → Option VId → Bool) (w : World
     CacheOK F (TS.search w F kind uni start attr val).1 :=
   (TS.search_spec w F kind uni start attr val h).2
 
+/-- `basic_render` (which asks `neighbors()` for every member, through the memo) returns exactly
+    the string the memo-free description `R.basicRender` gives — the object of the C16 theorems —
+    with caching on or off, … -/
+theorem C05_render_transparent (F : Nat → LId → Option VId → Bool) (w : World) (u : VId) (rf : R.RFun)
+    (sort : Option (Option VId → Nat)) (h : CacheOK F w) :
+    (R.basicRenderS w F u rf sort).2 = R.basicRender w F u rf sort :=
+  (R.basicRenderS_spec w F u rf sort h).1
+
+/-- … leaves the graph as it was, every memo correct — also when a `neighbors()` call raises
+    half-way through the universe -/
+theorem C13_render_readonly (F : Nat → LId → Option VId → Bool) (w : World) (u : VId) (rf : R.RFun)
+    (sort : Option (Option VId → Nat)) (h : CacheOK F w) :
+    SameGraph w (R.basicRenderS w F u rf sort).1 ∧ CacheOK F (R.basicRenderS w F u rf sort).1 :=
+  (R.basicRenderS_spec w F u rf sort h).2
+
 /-! ### histories that contain traversals and searches -/
 
 theorem stepX_keeps (F : Nat → LId → Option VId → Bool) (R : Nat → Option VId → Bool) (w : World)
